@@ -18,7 +18,7 @@ from pjrpc.server.validators import BaseValidator
 
 from mc.vloop import VLoop
 
-NAMES = ['a', 'b', 'c', 'd', 'e']
+NAMES = ['a', 'b', 'c', 'd', 'e', 'f']
 
 
 def signatures(maxn):
@@ -94,7 +94,7 @@ def openrpc_params(doc, name):
 
 
 def gen_cases(ctx):
-    for sig in signatures(ctx.pick(4, 5)):
+    for sig in signatures(ctx.pick(5, 6)):
         for ctx_mode in ('none', 'name', 'positional'):
             for inj in (False, True):
                 for flavour in ('function', 'view'):
@@ -204,7 +204,7 @@ def run(ctx):
                 'parameter {none, by name, first positional} x exclusion predicate on/off x {function, class based view method}, both '
                 'dispatchers; OpenAPI 3.1 and OpenRPC documents generated with the pydantic extractor; every params object over '
                 'subsets of documented names + undocumented + context + excluded name is dispatched. state = one program; '
-                'non-trivial = has parameters, a context or an excluded parameter' % (len(signatures(ctx.pick(4, 5))), ctx.pick(4, 5)))
+                'non-trivial = has parameters, a context or an excluded parameter' % (len(signatures(ctx.pick(5, 6))), ctx.pick(5, 6)))
     ctx.assumptions += ['the same exclusion predicate is configured on the validator and on the extractor']
     ctx.run_cases('C17', lambda: gen_cases(ctx), run_case, recheck_every=97)
     oc = ctx.rec.outcomes
